@@ -2,7 +2,6 @@ package sim
 
 import (
 	"fmt"
-	"runtime"
 	"hash/fnv"
 	"sort"
 	"strings"
@@ -42,6 +41,10 @@ type World struct {
 
 	Viol      []Violation
 	TroubleSteps []int
+	quiet        bool // unwinding a stopped incarnation: events are not recorded
+	rootG        uint64
+	stepAcc      uint64
+	stepText     []string
 	Faults    map[string]int
 	Probes    map[string]int
 	Inconcl   string // non-empty: run could not decide (cap hit in fault phase ...)
@@ -77,14 +80,48 @@ func (w *World) mix(s string, a int) {
 }
 
 // Ev records an event in the run's hash (always) and text log (verbose).
+// Events emitted by the scheduler goroutine are ordered. Events emitted by
+// other goroutines within one step (several goroutines woken by one release
+// run in an order the library's map iteration may decide, e.g. breakAll) are
+// folded commutatively and sorted, so that the hash does not depend on it.
 func (w *World) Ev(kind string, a int, format string, args ...any) {
+	if w.quiet {
+		// nothing a stopped incarnation does is observed
+		return
+	}
+	if w.rootG != 0 && verifsim.Goid() != w.rootG {
+		h := uint64(1469598103934665603)
+		for i := 0; i < len(kind); i++ {
+			h = (h ^ uint64(kind[i])) * 1099511628211
+		}
+		h = (h ^ uint64(uint32(a))) * 1099511628211
+		w.stepAcc += h*2 + 1
+		if w.Verbose {
+			w.stepText = append(w.stepText, fmt.Sprintf("%6d %-10s ", w.Steps, kind)+fmt.Sprintf(format, args...))
+		}
+		return
+	}
+	w.flushStep()
 	w.mix(kind, a)
 	if w.Verbose {
 		w.Text = append(w.Text, fmt.Sprintf("%6d %-10s ", w.Steps, kind)+fmt.Sprintf(format, args...))
 	}
 }
 
-func (w *World) Hash() uint64 { return w.hash }
+// flushStep folds what other goroutines logged since the last scheduler event.
+func (w *World) flushStep() {
+	if w.stepAcc != 0 {
+		w.mix("tasks", int(w.stepAcc^(w.stepAcc>>32)))
+		w.stepAcc = 0
+	}
+	if len(w.stepText) > 0 {
+		sort.Strings(w.stepText)
+		w.Text = append(w.Text, w.stepText...)
+		w.stepText = w.stepText[:0]
+	}
+}
+
+func (w *World) Hash() uint64 { w.flushStep(); return w.hash }
 
 func (w *World) Fault(kind string) { w.Faults[kind]++; w.Budget--; w.Trouble() }
 
@@ -197,12 +234,6 @@ func (s *Sim) name(gid uint64) string {
 }
 
 func (s *Sim) hook(label string) {
-	if s.dead {
-		// a zombie's polling loop must not starve the goroutines that
-		// would end it (one P, no preemption)
-		runtime.Gosched()
-		return
-	}
 	if s.NoYield {
 		return
 	}
@@ -210,6 +241,9 @@ func (s *Sim) hook(label string) {
 	if gid == s.rootG {
 		return
 	}
+	// a zombie keeps parking at its yields: the unwinding releases one
+	// goroutine at a time in canonical order, so that what is left of the
+	// stopped incarnation runs down deterministically
 	s.parkAt(gid, pkYield, label, nil)
 }
 
@@ -292,6 +326,7 @@ func RunBubble(w *World, setup func(s *Sim)) (s *Sim) {
 	synctest.Test(w.T, func(t *testing.T) {
 		s = &Sim{W: w, names: map[uint64]string{}, notify: make(chan struct{}, 1), epoch: time.Now(), tickW: 1, base: w.SimTime, netParks: map[string]int{}}
 		s.rootG = verifsim.Goid()
+		w.rootG = s.rootG
 		verifsim.Hook = s.hook
 		defer func() {
 			s.dur = time.Since(s.epoch)
@@ -323,6 +358,7 @@ func (s *Sim) loop() {
 	for {
 		synctest.Wait()
 		s.drain()
+		w.flushStep()
 		w.Steps++
 		if s.StepHook != nil {
 			s.StepHook()
@@ -547,33 +583,45 @@ func (s *Sim) idle() bool {
 // to return when they see s.dead.
 func (s *Sim) unwind() {
 	s.dead = true
+	s.W.quiet = true
+	defer func() { s.W.quiet = false }()
 	for _, c := range s.conns {
 		c.closedLocal = true
 	}
 	if s.Unwind != nil {
 		s.Unwind()
 	}
-	for round := 0; round < 200; round++ {
-		for len(s.parked) > 0 {
-			p := s.parked[0]
-			s.killOp(p)
-			s.unpark(p)
-		}
+	idleRounds := 0
+	for round := 0; round < 100000; round++ {
 		synctest.Wait()
+		s.drain()
 		if len(s.parked) == 0 {
 			if s.live == 0 {
 				break
 			}
-			// tasks blocked on library timers or channels: let time pass
-			s.drain()
+			// tasks blocked on library timers: let time pass
+			idleRounds++
+			if idleRounds > 200 {
+				break
+			}
 			tm := time.NewTimer(10 * time.Second)
 			select {
 			case <-s.notify:
 				tm.Stop()
 			case <-tm.C:
 			}
-			synctest.Wait()
+			continue
 		}
+		s.sortParked()
+		p := s.parked[0]
+		// fairness among zombies: oldest park first within canonical order
+		for _, q := range s.parked {
+			if q.seq < p.seq {
+				p = q
+			}
+		}
+		s.killOp(p)
+		s.unpark(p)
 	}
 	if s.live != 0 {
 		s.W.Probe("zombie_tasks_stuck")
